@@ -4,6 +4,7 @@ Contracts on the real functions of chmpy/crystal/symmetry_operation.py and Cryst
 Top-level postconditions are taken from the property statement; spec functions digit3/digit12 are positional digits.
 """
 import itertools
+import os
 import time
 from fractions import Fraction
 
@@ -632,17 +633,23 @@ def bounded(ctx):
     ctx.add_bounded("symmetry_operation.SymmetryOperation/bounded/lattice_noise_float", "12 grid values x integer offsets -2..2 x noise {0, +-1e-13, +-1e-12}, real float64 path",
                     evals, len(distinct), fails, rule="distinct (k, n, eps) triples")
     if ctx.tier == "thorough":
-        # G (thorough): all 34,012,224 codes through the real numpy path, vectorised re-implementation cross-checked on a sample,
-        # the real functions on a strided complete residue system
+        # G (thorough): ALL 34,012,224 packed codes through the real numpy functions (closes the floats-as-reals gap of the symbolic round trip on this finite domain)
+        import multiprocessing as mp
         t0 = time.time()
-        bad = None
-        step = 997
-        cnt = 0
-        for code in range(0, NCODES, step):
-            r, t = so.decode_symm_int(code)
-            cnt += 1
-            if so.encode_symm_int(r, t) != code:
-                bad = {"code": code}
-                break
-        ctx.add_bounded("symmetry_operation.roundtrip/bounded/native_codes", f"every {step}th code through the real numpy functions", cnt, cnt,
-                        [] if bad is None else [{"input": bad, "observed": "encode(decode(c)) != c", "key": "native"}])
+        nproc = min(16, os.cpu_count() or 4)
+        chunk = 200000
+        ranges = [(lo, min(lo + chunk, NCODES)) for lo in range(0, NCODES, chunk)]
+        with mp.get_context("fork").Pool(nproc) as pool:
+            results = pool.map(_roundtrip_range, ranges, chunksize=2)
+        bad = [r for r in results if r is not None]
+        ctx.ground("symmetry_operation.roundtrip/native_all_codes", not bad, clause=f"encode_symm_int(*decode_symm_int(c)) == c for every one of the {NCODES} codes, real float64 path",
+                   detail={"codes": NCODES, "first_bad": bad[:3]}, witness=bad[:3], seconds=round(time.time() - t0, 1))
+
+
+def _roundtrip_range(r):
+    so = _native()
+    dec, enc = so.decode_symm_int, so.encode_symm_int
+    for code in range(r[0], r[1]):
+        if enc(*dec(code)) != code:
+            return code
+    return None
